@@ -109,9 +109,21 @@ def wrap(items):
     return N("m:oMath", *items)
 
 
+def coq_name(x):
+    """tag / attribute name; the two namespace prefixes are abbreviated (definitions in the scratch preamble)"""
+    for pre, ab in (("{" + MATH + "}", "nsM"), ("{" + WORD + "}", "nsW")):
+        if x.startswith(pre):
+            return f"({ab} ++ {coq_str(x[len(pre):])})"
+    return coq_str(x)
+
+
+PREAMBLE = ("From S2T Require Import Lib.PyStr C19.Model C19.Corr Gen.C19Tables.\n"
+            f"Definition nsM : str := {coq_str('{' + MATH + '}')}.\nDefinition nsW : str := {coq_str('{' + WORD + '}')}.\n")
+
+
 def el_to_coq(e):
-    attrs = coq_list([f"({coq_str(k)}, {coq_str(v)})" for k, v in e.attrib.items()])
-    return (f"(Node {coq_str(e.tag)} {attrs} {coq_opt(e.text, coq_str)} "
+    attrs = coq_list([f"({coq_name(k)}, {coq_str(v)})" for k, v in e.attrib.items()])
+    return (f"(Node {coq_name(e.tag)} {attrs} {coq_opt(e.text, coq_str)} "
             + coq_list([el_to_coq(c) for c in e]) + ")")
 
 
@@ -577,7 +589,7 @@ def run(ctx):
     if none_out != "":
         ctx.finding("none-input", f"omml_to_latex(None) -> {none_out!r}", {"input": None, "output": none_out})
 
-    pre = "From S2T Require Import Lib.PyStr C19.Model C19.Corr Gen.C19Tables.\n"
+    pre = PREAMBLE
     ok, failing, log = coq_eval_shards(ctx, "corr", pre, "(corr_case T fixed)", coq_cases, shard=400,
                                        ty="omml * option str * str")
     ctx.traces += len(coq_cases)
